@@ -302,10 +302,17 @@ def install_stage_fault(name, nth=1):
 
 
 def quiet_progress():
+    """dask's ProgressBar runs a timer thread (100 ms per compute()) and floods stdout; it is output only.  The stand-in accepts
+    whatever arguments the code passes to ProgressBar (minimum=, dt=, out=, ...)."""
     from nuspacesim.simulation.eas_optical import cphotang
     if hasattr(cphotang, "ProgressBar"):
         from dask.callbacks import Callback
-        cphotang.ProgressBar = type("QuietBar", (Callback,), {})
+
+        class QuietBar(Callback):
+            def __init__(self, *args, **kwargs):
+                super().__init__()
+
+        cphotang.ProgressBar = QuietBar
 
 
 def scheduler_ctx(name):
